@@ -6,9 +6,12 @@
 /* bytes of the 13 first requests */
 #define INT_BYTES(n) (5 * ((n) + 1) * 4 + 4 * (n) * 4)
 #define TOTAL_BYTES (INT_BYTES(n) + g_nzlu_guess * VW + g_nzu_guess * VW + g_nzl_guess * 4 + g_nzu_guess * 4)
-/* array a (len elements of w bytes) ends before array b starts */
-#define BEFORE(a, len, w, b) ((char*)(a) + (len) * (w) <= (char*)(b))
-#define INSIDE(a, len, w) (__CPROVER_same_object((a), in_work) && (char*)(in_work + g_skew) <= (char*)(a) && (char*)(a) + (len) * (w) <= (char*)(in_work + g_skew) + stack.top1)
+/* array a (len elements of w bytes) ends before array b starts; byte offsets inside the caller's buffer object in_work (integers: no pointer arithmetic on possibly-NULL pointers) */
+#define OFF(p) ((int_t)__CPROVER_POINTER_OFFSET(p))
+#define NZMAX ((FB) * (ANNZB) > (NZB) ? (FB) * (ANNZB) : (NZB))
+#define RNG(a, len) (0 <= OFF(a) && OFF(a) <= WCAP && 0 <= (len) && (len) <= NZMAX + NB + 1)
+#define BEFORE(a, len, w, b) (RNG(a, len) && OFF(a) + (len) * (w) <= OFF(b))
+#define INSIDE(a, len, w) (__CPROVER_same_object((a), in_work) && RNG(a, len) && g_skew <= OFF(a) && OFF(a) + (len) * (w) <= g_skew + stack.top1)
 #define EXP_TABLE_OK __CPROVER_rw_ok(@p@expanders, 4 * sizeof(ExpHeader))
 #define EXP_LEN_OK __CPROVER_rw_ok(prev_len, sizeof(int_t))
 
